@@ -34,6 +34,14 @@ REQUIRED_COUNTERS = ["schemas", "roundtrip.identical", "third_iteration.identica
                      "source.docs", "source.grammar"]
 NUMBERED = re.compile(r"_\d+$")
 
+ANCHORS = [
+    "statham.schema.parser:_keyword_filter",
+    "statham.serializers.json:_serialize_element",
+    "statham.schema.elements.base:Element.__eq__",
+    "statham.schema.property:_Property.__eq__",
+    "statham.serializers.python:serialize_python",
+]
+
 
 def plan(tier):
     if tier == "quick":
